@@ -196,32 +196,114 @@ func instantiate(c *hx.Ctx, f []string) []string {
 
 func isName(t string) bool { return !strings.ContainsAny(t, "+#\x00") }
 
-// c04Set builds one tree with Add and asks the four queries.  custom: the tree is
-// topic.NewTree(".", "*", ">") and every topic is renamed on the way in; the exchange file
-// always carries the standard form, so the same specification judges both.
+// addOps turns (topic, value) entries into Add operations.
+func addOps(entries []string, evals []int) []op {
+	ops := make([]op, len(entries))
+	for i, e := range entries {
+		ops[i] = op{'A', e, evals[i]}
+	}
+	return ops
+}
+
 func c04Set(c *hx.Ctx, k int, entries []string, evals []int, queries []string, custom bool) {
+	c04History(c, k, addOps(entries, evals), queries, custom)
+}
+
+type kept struct {
+	what  string
+	slice []interface{} // as returned, NOT copied
+	copy  []interface{}
+}
+
+// c04History builds one tree by a history of operations (the stored set it leaves is computed by
+// the map specification in the model runner) and asks the four queries on every query topic.
+//
+//	hset <k> <op> …                       A:<hex>:<v> S:… R:… E:<hex> C:<v> X
+//	q <k> <hex> M=… MF=… S=… SF=…
+//
+// The answers are asked three times: (1) plainly; every slice returned by Match/Search/All is kept
+// (not copied) and re-compared after every later lookup; (2) after operations that leave the stored
+// set unchanged (a value added to and removed from a stored topic, a fresh topic added and emptied);
+// (3) after every kept slice, up to its capacity, has been overwritten by the caller.  Rounds 2 and 3
+// are judged like round 1: the stored set has not changed, so every lookup must answer as before.
+//
+// custom: the tree is topic.NewTree(".", "*", ">") and every topic is renamed on the way in; the
+// exchange file always carries the standard form, so the same specification judges both.
+func c04History(c *hx.Ctx, k int, ops []op, queries []string, custom bool) {
 	t, m := topic.NewStandardTree(), ident
 	if custom {
 		t, m = topic.NewTree(".", "*", ">"), toCustom.Replace
 		c.Stat("custom_tree_sets", 1)
 	}
-	parts := make([]string, len(entries))
-	for i, e := range entries {
-		t.Add(m(e), val(evals[i]))
-		parts[i] = fmt.Sprintf("%s:%d", hexs(e), evals[i])
-	}
-	c.Emit("set %d %s", k, strings.Join(parts, " "))
-	for _, q := range queries {
-		tick(fmt.Sprintf("queries on %q, set %q", q, entries))
-		mt, mf := "~", "~"
-		if isName(q) {
-			mt, mf = vals(t.Match(m(q))), first(t.MatchFirst(m(q)))
-			c.Stat("queries", 2)
+	parts := make([]string, len(ops))
+	var stored []string
+	for i, o := range ops {
+		mo := o
+		mo.topic = m(o.topic)
+		apply(t, mo)
+		parts[i] = o.text()
+		if o.kind == 'A' || o.kind == 'S' {
+			stored = append(stored, o.topic)
 		}
-		s, sf := sortedVals(t.Search(m(q))), first(t.SearchFirst(m(q)))
-		c.Stat("queries", 2)
-		c.Emit("q %d %s M=%s MF=%s S=%s SF=%s", k, hexs(q), mt, mf, s, sf)
 	}
+	c.Emit("hset %d %s", k, strings.Join(parts, " "))
+	var keep []kept
+	recheck := func(when string) {
+		for i := range keep {
+			s := &keep[i]
+			same := len(s.slice) == len(s.copy)
+			for j := 0; same && j < len(s.copy); j++ {
+				same = s.slice[j] == s.copy[j]
+			}
+			if !same {
+				c.Emit("direct snapshot FAIL set=%d the result of %s was %s and reads %s after %s", k, s.what, vals(s.copy), vals(s.slice), when)
+				s.copy = append([]interface{}{}, s.slice...)
+			}
+		}
+	}
+	remember := func(what string, l []interface{}) []interface{} {
+		recheck(what)
+		if len(l) > 0 {
+			keep = append(keep, kept{what, l, append([]interface{}{}, l...)})
+		}
+		return l
+	}
+	round := func() {
+		for _, q := range queries {
+			tick(fmt.Sprintf("queries on %q, history %q", q, parts))
+			mt, mf := "~", "~"
+			if isName(q) {
+				mt, mf = vals(remember("Match("+hexs(q)+")", t.Match(m(q)))), first(t.MatchFirst(m(q)))
+				c.Stat("queries", 2)
+			}
+			s, sf := sortedVals(remember("Search("+hexs(q)+")", t.Search(m(q)))), first(t.SearchFirst(m(q)))
+			c.Stat("queries", 2)
+			c.Emit("q %d %s M=%s MF=%s S=%s SF=%s", k, hexs(q), mt, mf, s, sf)
+		}
+		remember("All()", t.All())
+	}
+	round()
+	// operations that leave the stored set as it is
+	for i, tp := range stored {
+		if i%3 == 0 {
+			t.Add(m(tp), val(424242))
+			t.Remove(m(tp), val(424242))
+		}
+	}
+	t.Add(m("zz/fresh"), val(424243))
+	t.Empty(m("zz/fresh"))
+	t.Remove(m("never/stored"), val(1))
+	recheck("operations that leave the stored set unchanged")
+	round()
+	// the caller overwrites what it was given
+	for _, s := range keep {
+		full := s.slice[:cap(s.slice)]
+		for j := range full {
+			full[j] = "scribbled by the caller"
+		}
+	}
+	keep = nil
+	round()
 	c.Stat("sets", 1)
 }
 
@@ -264,6 +346,31 @@ func c04Corpus(c *hx.Ctx) int {
 	corpus = append(corpus, hand{[]string{d300, d300plus, d200hash, d300 + "/e", strings.Repeat("+/", 299) + "+"}, []int{1, 2, 3, 4, 5},
 		[]string{d300, d300 + "/e", strings.Repeat("d/", 298) + "d", strings.Repeat("d/", 299) + "x", d300plus, d200hash, strings.Repeat("d/", 299) + "+"}})
 	k := 9000000
+	// sets reached THROUGH removals: inner nodes, leaves, never-stored topics, Clear, Reset
+	type hist struct {
+		ops     []string
+		queries []string
+	}
+	hq := []string{"a", "a/b", "a/b/c", "a/c", "b", "a/+", "a/#", "#", "+", "+/+", "a/b/#", "a/+/c"}
+	for _, h := range []hist{
+		{[]string{"S:61:1", "S:612f62:2", "S:612f23:3", "E:61"}, hq},                                  // Empty of an inner node that has children
+		{[]string{"S:61:1", "S:612f62:2", "S:612f622f63:3", "E:612f62"}, hq},                          // … in the middle of a branch
+		{[]string{"S:61:1", "S:612f62:2", "S:612f622f63:3", "E:612f622f63"}, hq},                      // … of the leaf
+		{[]string{"S:612f622f63:3", "E:612f62", "E:61", "R:61:3", "E:78", "R:612f622f632f64:3"}, hq},  // never-stored inner nodes / extensions
+		{[]string{"A:61:1", "A:61:2", "A:612f62:1", "A:612f2b:1", "A:612f23:2", "R:61:1", "C:2"}, hq}, // Remove at an inner node, Clear across branches
+		{[]string{"A:61:1", "A:612f62:2", "X", "A:612f62:3", "A:612f2b:4", "E:612f2b"}, hq},           // Reset in the middle
+		{[]string{"A:2b:1", "A:2b2f2b:2", "A:23:3", "A:61:4", "E:2b", "R:23:3", "A:612f23:5", "E:612f23"}, hq},
+		{[]string{"A:-:1", "A:2f:2", "A:2f61:3", "E:-", "A:612f:4", "E:2f"}, []string{"", "/", "/a", "a/", "+", "+/+", "#", "/#", "a/+"}},
+	} {
+		var ops []op
+		for _, t := range h.ops {
+			ops = append(ops, parseOp(t))
+		}
+		for _, custom := range []bool{false, true} {
+			c04History(c, k, ops, h.queries, custom)
+			k++
+		}
+	}
 	for _, h := range corpus {
 		for _, custom := range []bool{false, true} {
 			c04Set(c, k, h.entries, h.vals, h.queries, custom)
@@ -283,9 +390,77 @@ func c04Pairs(c *hx.Ctx, k int) {
 			c04Set(c, k, []string{f1, f2}, []int{1, 2}, queries, false)
 			c04Set(c, k+1, []string{f1, f2}, []int{1, 1}, queries, false)
 			k += 2
+			if f1 != f2 {
+				// the second entry is stored and taken away again before the lookups: by Empty, by Remove, by Clear
+				c04History(c, k, []op{{'S', f1, 1}, {'S', f2, 2}, {kind: 'E', topic: f2}}, queries, false)
+				c04History(c, k+1, []op{{'A', f1, 1}, {'A', f2, 2}, {'A', f2, 3}, {'R', f2, 2}, {'A', f1, 2}, {kind: 'C', val: 2}}, queries, false)
+				k += 2
+				c.Stat("pair_trees", 2)
+			}
 		}
 	}
 	c.Stat("pair_trees", 2*len(filters)*len(filters))
+}
+
+// withVictims turns a set of entries into a history that also stores other topics and takes them
+// away again before the lookups: extensions of entries (leaves below them), prefixes (inner nodes
+// above them), siblings and unrelated topics, removed by Empty, by Remove value by value, or by
+// Clear; plus Empty/Remove on topics that were never stored.  Some removals hit kept entries too:
+// the model runner computes the stored set with the map specification from the whole history.
+func withVictims(c *hx.Ctx, entries []string, evals []int) []op {
+	var ops []op
+	var victims []op
+	for i, e := range entries {
+		kind := byte('A')
+		if c.Rng.Intn(4) == 0 {
+			kind = 'S'
+		}
+		ops = append(ops, op{kind, e, evals[i]})
+		lv := strings.Split(e, "/")
+		if lv[len(lv)-1] == "#" {
+			lv = lv[:len(lv)-1]
+		}
+		var v string
+		switch c.Rng.Intn(5) {
+		case 0:
+			v = strings.Join(append(append([]string{}, lv...), randLevel(c)), "/") // a leaf below
+		case 1:
+			v = strings.Join(lv[:c.Rng.Intn(len(lv)+1)], "/") // an inner node above (possibly "" or the entry itself)
+		case 2:
+			if len(lv) > 0 {
+				v = strings.Join(append(append([]string{}, lv[:len(lv)-1]...), randLevel(c)), "/") // a sibling
+			}
+		case 3:
+			v = strings.Join(append(append([]string{}, lv...), "#"), "/")
+		default:
+			v = strings.Join(randName(c, 3), "/")
+		}
+		victims = append(victims, op{'A', v, 50 + c.Rng.Intn(3)})
+		if c.Rng.Intn(2) == 0 {
+			victims = append(victims, op{'A', v, 60 + c.Rng.Intn(2)})
+		}
+	}
+	// store the victims between the entries
+	for _, v := range victims {
+		at := c.Rng.Intn(len(ops) + 1)
+		ops = append(ops[:at], append([]op{v}, ops[at:]...)...)
+	}
+	// take them away again
+	c.Rng.Shuffle(len(victims), func(i, j int) { victims[i], victims[j] = victims[j], victims[i] })
+	for _, v := range victims {
+		switch c.Rng.Intn(4) {
+		case 0, 1:
+			ops = append(ops, op{kind: 'E', topic: v.topic})
+		case 2:
+			ops = append(ops, op{'R', v.topic, v.val})
+		default:
+			ops = append(ops, op{kind: 'C', val: v.val})
+		}
+		if c.Rng.Intn(4) == 0 {
+			ops = append(ops, op{kind: 'E', topic: v.topic + "/" + randLevel(c)}) // never stored
+		}
+	}
+	return ops
 }
 
 func c04Random(c *hx.Ctx, sets int) {
@@ -335,7 +510,12 @@ func c04Random(c *hx.Ctx, sets int) {
 		if k == 0 {
 			c.Sample(fmt.Sprintf("random set: entries %q queries %q", entries, queries[:4]))
 		}
-		c04Set(c, k, entries, evals, queries, k%3 == 2)
+		if k%2 == 0 {
+			c04Set(c, k, entries, evals, queries, k%3 == 2)
+		} else {
+			c04History(c, k, withVictims(c, entries, evals), queries, k%3 == 2)
+			c.Stat("random_sets_with_removals", 1)
+		}
 		c.Stat("random_sets", 1)
 	}
 }
@@ -358,23 +538,22 @@ func c04Replay(c *hx.Ctx) {
 			t = topic.NewStandardTree()
 			t.Set(n, storedValue)
 			c.Emit("srow 0 %c %c", cell(t.Search(f)), cellFirst(t.SearchFirst(f)))
-		case "set": // set <k> <hex>:<v> … followed by its q lines
-			var entries []string
-			var evals []int
+		case "hset": // hset <k> <op> … followed by its q lines
+			var ops []op
 			for _, e := range w[2:] {
-				p := strings.Split(e, ":")
-				entries = append(entries, unhex(p[0]))
-				evals = append(evals, hx.Atoi(p[1]))
+				ops = append(ops, parseOp(e))
 			}
+			seen := map[string]bool{}
 			var queries []string
 			for _, l2 := range hx.ReadLines(c.Replay) {
 				w2 := strings.Fields(l2)
-				if len(w2) > 2 && w2[0] == "q" && w2[1] == w[1] {
+				if len(w2) > 2 && w2[0] == "q" && w2[1] == w[1] && !seen[w2[2]] {
+					seen[w2[2]] = true
 					queries = append(queries, unhex(w2[2]))
 				}
 			}
-			c04Set(c, 1000000+k, entries, evals, queries, false)
-			c04Set(c, 2000000+k, entries, evals, queries, true)
+			c04History(c, 1000000+k, ops, queries, false)
+			c04History(c, 2000000+k, ops, queries, true)
 			k++
 		}
 	}
